@@ -170,6 +170,10 @@ def gen(ck):
     for cs in CHARSETS:
         for t in TEXTS:
             cases.append((cs, (t,), None))
+        # every kind of text-carrying meta message (the index in the tuple selects the kind) with text that ends in, starts with
+        # and contains NUL characters and blanks: what is loaded is what was saved, character for character
+        for t in ('Piano\x00', '\x00lead\x00\x00', ' pad ', 'x\x00y', '\x00', '\t tab\n'):
+            cases.append((cs, (t,) * 8, None))
         for _ in range(12 if ck.tier == 'quick' else 200):
             texts = tuple(rng.choice(TEXTS[:13]) for _ in range(rng.randint(1, 4)))
             enc_ok = True
